@@ -377,17 +377,19 @@ pub struct Printer<'a> {
     pub cur_ind: usize,
     /// line breaks already placed in the current statement (each continues deeper)
     pub breaks: usize,
+    /// > 0 while printing a chain that is the whole right-hand side of an assignment
+    pub chain_ok: u32,
 }
 
 pub fn print_program(prog: &[E], layout: &Layout) -> String {
-    let mut p = Printer { out: String::new(), layout, no_break: 0, inline_only: 0, cur_ind: 0, breaks: 0 };
+    let mut p = Printer { out: String::new(), layout, no_break: 0, inline_only: 0, cur_ind: 0, breaks: 0, chain_ok: 0 };
     p.block(prog, 0);
     p.out
 }
 
 pub fn print_expr(e: &E) -> String {
     let l = Layout::canonical();
-    let mut p = Printer { out: String::new(), layout: &l, no_break: 0, inline_only: 0, cur_ind: 0, breaks: 0 };
+    let mut p = Printer { out: String::new(), layout: &l, no_break: 0, inline_only: 0, cur_ind: 0, breaks: 0, chain_ok: 0 };
     p.expr(e, 0);
     p.out
 }
@@ -730,6 +732,15 @@ impl Printer<'_> {
     }
 
     /// right-hand side of an assignment: compound constructs go in block form on the same line
+    /// chains rooted in an identifier or a string may be broken before `.`
+    fn simple_chain_root(e: &E) -> bool {
+        match e {
+            E::Id(_) | E::Str(_) => true,
+            E::Dot(a, _) | E::Index(a, _) | E::Call(a, _) => Self::simple_chain_root(a),
+            _ => false,
+        }
+    }
+
     fn rhs(&mut self, v: &E, ind: usize) {
         match v {
             E::If(arms, els) => {
@@ -756,7 +767,29 @@ impl Printer<'_> {
             }
             E::Fn(..) => self.expr_ind(v, 0, ind),
             E::Print(..) => self.stmt(v, ind),
-            _ => self.expr_ind(v, 0, ind),
+            _ => {
+                // layout freedom: the value starts on its own, deeper indented line
+                let chain_like = matches!(v, E::Id(_) | E::Dot(..) | E::Call(..) | E::Index(..) | E::Str(_) | E::Bin(..) | E::List(_));
+                if chain_like && self.no_break == 0 && self.inline_only == 0 && self.out.ends_with("= ") && self.layout.pick(10) == 1 {
+                    self.out.pop();
+                    self.out.push('\n');
+                    self.indent(ind + 2);
+                    let saved = (self.cur_ind, self.breaks);
+                    self.cur_ind = ind + 2;
+                    self.breaks = 0;
+                    let chain = matches!(v, E::Dot(..) | E::Call(..) | E::Index(..)) && Self::simple_chain_root(v);
+                    self.chain_ok += chain as u32;
+                    self.expr_ind(v, 0, ind + 2);
+                    self.chain_ok -= chain as u32;
+                    self.cur_ind = saved.0;
+                    self.breaks = saved.1;
+                } else {
+                    let chain = matches!(v, E::Dot(..) | E::Call(..) | E::Index(..)) && Self::simple_chain_root(v);
+                    self.chain_ok += chain as u32;
+                    self.expr_ind(v, 0, ind);
+                    self.chain_ok -= chain as u32;
+                }
+            }
         }
     }
 
@@ -966,11 +999,19 @@ impl Printer<'_> {
             E::Index(a, i) => {
                 self.root(a, ind);
                 self.out.push('[');
+                let saved = std::mem::replace(&mut self.chain_ok, 0);
                 self.expr_ind(i, 0, ind);
+                self.chain_ok = saved;
                 self.out.push(']');
             }
             E::Dot(a, k) => {
                 self.root(a, ind);
+                // layout freedom: a chain may be broken before `.` onto a deeper indented line
+                if self.chain_ok > 0 && self.no_break == 0 && self.inline_only == 0 && Self::simple_chain_root(a) && self.layout.pick(4) == 1 {
+                    self.out.push('\n');
+                    self.breaks += 1;
+                    self.indent(self.cur_ind + 4 * self.breaks + 2 * self.layout.pick(2) as usize);
+                }
                 self.out.push('.');
                 self.out.push_str(k);
             }
